@@ -114,7 +114,7 @@ type tr struct {
 	consts   *[]constRec       // float constants met
 	layouts  map[string]string // package-level layout variables -> LRFC3339 / LDate
 	castPkg  bool              // translating pkg/cast itself (calls unqualified)
-	ret      string            // "gval" (interface{}, error) | "gbytes"
+	ret      string            // "gval" (interface{}, error) | the model type of the single result ("gbytes", "Z", "bool", "str", "gtime")
 }
 
 func (t *tr) fail(n ast.Node, format string, args ...interface{}) {
@@ -815,7 +815,7 @@ func (t *tr) stmts(list []ast.Stmt) string {
 	w0 := len(t.wraps)
 	switch x := s.(type) {
 	case *ast.ReturnStmt:
-		if t.ret == "gbytes" {
+		if t.ret != "gval" {
 			if len(x.Results) != 1 {
 				t.fail(x, "return arity")
 			}
@@ -1157,9 +1157,10 @@ func (t *tr) function(fd *ast.FuncDecl) fnOut {
 	case sig.Results().Len() == 2:
 		t.ret = "gval"
 	case sig.Results().Len() == 1:
-		if s, _ := t.sortOf(sig.Results().At(0).Type()); s == sBytes {
-			t.ret = "gbytes"
-		} else {
+		// a helper with one (non-error) result of a modelled sort: []byte, integers and floats (Z), bool, string, time.Time
+		s, _ := t.sortOf(sig.Results().At(0).Type())
+		t.ret = map[vsort]string{sBytes: "gbytes", sInt: "Z", sF64: "Z", sF32: "Z", sBool: "bool", sStr: "str", sNum: "str", sTime: "gtime"}[s]
+		if t.ret == "" {
 			t.fail(fd, "result type %v is outside the supported subset", sig.Results().At(0).Type())
 		}
 	default:
